@@ -71,5 +71,32 @@ pub fn session_variants(r: &mut Rng, events: &mut Vec<Event>, rerun_den: u64, re
             }
         }
     }
+    // a TWIN session for one of the session clients (a quarter of the runs): a second session on the same
+    // calculator that is given the same texts one step later, so that at any time the two sessions hold
+    // different values under the same names and alternate call by call
+    if r.chance(1, 4) {
+        let owners: Vec<u8> = { let mut v: Vec<u8> = out.iter().filter(|e| matches!(e.op, Op::SessionNew { .. }) && e.actor < 50).map(|e| e.actor).collect(); v.sort(); v.dedup(); v };
+        if !owners.is_empty() {
+            let a = *r.pick(&owners);
+            let twin = a + 50;
+            let mut lagged: Option<crate::trace::TextSpec> = None;
+            let mut out2: Vec<Event> = Vec::with_capacity(out.len() * 2);
+            for ev in out.into_iter() {
+                if ev.actor == a {
+                    match &ev.op {
+                        Op::SessionNew { lang } => { lagged = None; out2.push(Event { actor: twin, op: Op::SessionNew { lang: lang.clone() }, clock: ev.clock.clone() }); }
+                        Op::SessionLang { lang } => { out2.push(Event { actor: twin, op: Op::SessionLang { lang: lang.clone() }, clock: ev.clock.clone() }); }
+                        Op::SessionText { text } if ev.clock.is_frozen() => {
+                            if let Some(prev) = lagged.take() { out2.push(Event { actor: twin, op: Op::SessionText { text: prev }, clock: ev.clock.clone() }); }
+                            lagged = Some(text.clone());
+                        }
+                        _ => {}
+                    }
+                }
+                out2.push(ev);
+            }
+            out = out2;
+        }
+    }
     *events = out;
 }
